@@ -30,6 +30,19 @@ check("C02", "exploration",
       "Trusted: NumPy primal functions, Hypothesis, the oracle code (self-tested each run). Generic points only.",
       "property-based testing (Hypothesis) with a numerical-differentiation oracle on raw NumPy", "DESIGN.md C02")
 
+check("C03", "exploration",
+      "Generated scalar programs over logged user primitives and built-in ops (multi-edges, diamonds, dead results, value-steered "
+      "if/loop/recursion) are differentiated in both modes and compared with a reference tape; every derivative rule's call count and "
+      "the cotangent it saw are compared with the reference's liveness and total cotangents; toposort is checked on explicit multigraphs.",
+      "Trusted: the ~100-line reference tape (its forward and reverse sweeps are cross-checked on every case), Hypothesis.",
+      "property-based testing (Hypothesis): generated programs against a reference-model interpreter; validity predicate for toposort", "DESIGN.md C03")
+check("C08", "exploration",
+      "Generated expression trees with nested differential operators (depth 2-4, every level's mode drawn independently, closures over "
+      "any enclosing variable, evaluation points depending on outer variables) are evaluated by autograd and by a reference symbolic "
+      "differentiator with unique binders; plus vector-valued nestings against closed forms.",
+      "Trusted: the reference symbolic differentiator (no shared code with autograd), float evaluation at 1e-9.",
+      "property-based testing (Hypothesis): generated nested-derivative programs against a symbolic reference differentiator", "DESIGN.md C08")
+
 NOT_YET = {}
 
 
